@@ -171,6 +171,13 @@ func RunSimple(cfg SmallCfg, t *Trace, seg int) int {
 	}
 	waitQuiet(d)
 	p0 := d.NEvents()
+	wrap := func(n *simple.Nfs) API {
+		if UseTransport {
+			return NewRpcAPI(n)
+		}
+		return n
+	}
+	api := wrap(srv)
 	g := &simpleGen{r: rand.New(rand.NewSource(int64(cfg.Seed))), cfg: cfg}
 	t.Emit(Reset{Ev: "reset", Seg: seg, Driver: "simple", Seed: cfg.Seed, DiskSz: int(cfg.DiskSz), Root: simpleFh(1), KeepHist: cfg.Crash})
 	seg++
@@ -180,7 +187,7 @@ func RunSimple(cfg SmallCfg, t *Trace, seg int) int {
 		if cfg.Crash {
 			d.Mark("inv", c.I)
 		}
-		c = execWatch(srv, c)
+		c = execWatch(api, c)
 		if cfg.Crash {
 			d.Mark("ret", c.I)
 		}
@@ -190,19 +197,20 @@ func RunSimple(cfg SmallCfg, t *Trace, seg int) int {
 			break
 		}
 		if !cfg.Crash && n%40 == 39 {
-			t.Emit(simpleDump(srv, "run"))
+			t.Emit(simpleDump(api, "run"))
 		}
 		if !cfg.Crash && g.r.Intn(50) == 0 {
 			// restart on the same disk
-			t.Emit(simpleDump(srv, "run"))
+			t.Emit(simpleDump(api, "run"))
 			srv = simple.MakeNfs(d)
-			t.Emit(map[string]interface{}{"ev": "srestart", "dump": simpleDump(srv, "restarted")})
+			api = wrap(srv)
+			t.Emit(map[string]interface{}{"ev": "srestart", "dump": simpleDump(api, "restarted")})
 		}
 	}
 	if wedged {
 		return seg
 	}
-	t.Emit(simpleDump(srv, "run"))
+	t.Emit(simpleDump(api, "run"))
 	if !cfg.Crash {
 		return seg
 	}
